@@ -330,7 +330,6 @@ pub fn exec_sync_with_fault(inst: &mut Inst, m: DMode, dp: &DriverPlan, ndisp: u
 /// Executes the plan on the async dispatcher (twin layout supplied by the caller).
 #[cfg(feature = "parallel")]
 pub fn exec_async(plan: &Plan, twin: &Layout, pool: &Pool, pool_size: usize, dp: &DriverPlan, ndisp: usize, pool_ok: bool, hseed: u64, sum: &mut ExecSummary) {
-    use crate::res::full_world;
     use crate::sys::instantiate;
     use std::panic::{catch_unwind, AssertUnwindSafe};
     sum.mode = "async dispatch+wait".into();
